@@ -49,6 +49,17 @@ type c13Plan struct {
 	// HTLC output with the preimage.
 	claims  map[int]int32
 	horizon int32
+
+	// kind: channel class (c13Kind*); tap: 0 no taproot, 1 simple taproot
+	// (staging scripts), 2 taproot final; blobs: the taproot resolutions
+	// carry resolution blobs (aux channel).
+	kind  int
+	tap   int
+	blobs bool
+
+	// realNursery: pre-anchor kinds run the real UtxoNursery on a real
+	// NurseryStore (else the world-level stub).
+	realNursery bool
 }
 
 func (p *c13Plan) String() string {
@@ -59,8 +70,9 @@ func (p *c13Plan) String() string {
 	sort.Strings(cl)
 
 	return fmt.Sprintf("conf=%s pre=%v preHeight=%d closeHeight=%d "+
-		"claims=%v horizon=%d", ccConfNames[p.conf], p.pre, p.preHeight,
-		p.closeHeight, cl, p.horizon)
+		"claims=%v horizon=%d kind=%s tap=%d blobs=%v realNursery=%v",
+		ccConfNames[p.conf], p.pre, p.preHeight, p.closeHeight, cl,
+		p.horizon, c13KindNames[p.kind], p.tap, p.blobs, p.realNursery)
 }
 
 // c13Outcome is what an observer outside the process can see at the end.
@@ -84,8 +96,21 @@ type c13Outcome struct {
 	notifyUnres   []int
 	crashStates   []ArbitratorState // persisted state at each death
 	crashLast     []string          // last effect before each death
+	crashAt       []int             // number of effects at each death
 	inconclusive  string
 	contradiction []uint64
+
+	// inputs: everything handed to the sweeper, over all process lives;
+	// inputErrs: violations of the input model (oracle a) and sweeps
+	// that could never confirm.
+	inputs    []c13InputRec
+	inputErrs []string
+	// nursery stub activity.
+	nurseryTimeoutTx, nurseryKidSweeps, publishedConfirmed int
+	nurseryConfs                                           int
+	// nurseryLeft: output states the nursery store still tracks at the
+	// end (real nursery; informational).
+	nurseryLeft []string
 }
 
 func c13Set(in []string) []string {
@@ -140,14 +165,22 @@ func c13Run(t *testing.T, sc *ccScenario, plan *c13Plan,
 
 	w := newCcWorld(int32(plan.preHeight))
 	w.applyKnowledge(sc)
+	env := newC13Env(sc, plan, w)
+	w.sweepHook = env.sweepHook
 	for i, h := range plan.claims {
 		x := &sc.HTLCs[i]
 		op := wire.OutPoint{
 			Hash:  ccCommitHash(plan.conf),
 			Index: uint32(x.Out[plan.conf]),
 		}
-		w.remoteClaim[op] = ccClaim{
+		claim := ccClaim{
 			height: h, pre: x.Pre, local: plan.conf == ccL,
+		}
+		if plan.tap > 0 {
+			// The peer's witness has the taproot shape.
+			env.tapClaims[op] = claim
+		} else {
+			w.remoteClaim[op] = claim
 		}
 	}
 
@@ -165,12 +198,31 @@ func c13Run(t *testing.T, sc *ccScenario, plan *c13Plan,
 		w.mu.Unlock()
 
 		inc := w.newInc()
+		w.mu.Lock()
+		env.life = n + 1
+		env.confSubs, env.nursery = nil, nil
+		w.mu.Unlock()
 		db, err := c13OpenDB(path)
 		if err != nil {
 			out.inconclusive = "open: " + err.Error()
 			return out
 		}
+		var nursery *UtxoNursery
+		if plan.realNursery {
+			nursery, err = env.newNursery(inc, db)
+			if err != nil {
+				_ = db.Close()
+				out.inconclusive = "nursery: " + err.Error()
+				return out
+			}
+			w.mu.Lock()
+			env.nursery = nursery
+			w.mu.Unlock()
+		}
 		mkLog := func(cfg ChannelArbitratorConfig) (ArbitratorLog, error) {
+			// The log hands this config to the resolvers it restores.
+			env.patch(&cfg, inc)
+
 			return newBoltArbitratorLog(
 				db, cfg, chainhash.Hash(testChainHash), ccChanPoint,
 			)
@@ -188,10 +240,23 @@ func c13Run(t *testing.T, sc *ccScenario, plan *c13Plan,
 			out.inconclusive = "build: " + err.Error()
 			return out
 		}
+		env.patch(&arb.cfg, inc)
 
 		finish := func() {
 			ccStop(arb)
+			if nursery != nil {
+				_ = nursery.Stop()
+			}
 			_ = db.Close()
+		}
+
+		// The server starts the nursery before the chain arbitrator.
+		if nursery != nil {
+			if err := nursery.Start(); err != nil && !inc.isDead() {
+				finish()
+				out.inconclusive = "nursery start: " + err.Error()
+				return out
+			}
 		}
 
 		// Start(): read the state, then let the attendant progress
@@ -265,9 +330,9 @@ func c13Run(t *testing.T, sc *ccScenario, plan *c13Plan,
 					w.height = int32(plan.closeHeight)
 				}
 				w.applyClaimsLocked()
+				env.applyClaimsLocked()
 				w.mu.Unlock()
-				_ = ccDeliverClose(arb, sc, plan.conf,
-					plan.closeHeight)
+				_ = c13DeliverClose(arb, sc, plan, plan.closeHeight)
 
 				continue
 			}
@@ -275,8 +340,14 @@ func c13Run(t *testing.T, sc *ccScenario, plan *c13Plan,
 			if key := w.pumpOne(inc); key != "" {
 				continue
 			}
+			// Nothing else is pending: the nursery / the mempool
+			// move (that takes a block in reality).
+			if key := env.pumpNursery(inc); key != "" {
+				continue
+			}
 			if height < plan.horizon {
 				w.mine()
+				env.applyClaims()
 				// handleBlockbeat in a closed state.
 				arb.launchResolvers()
 
@@ -299,6 +370,7 @@ func c13Run(t *testing.T, sc *ccScenario, plan *c13Plan,
 			out.crashLast = append(out.crashLast,
 				w.effLog[len(w.effLog)-1])
 		}
+		out.crashAt = append(out.crashAt, len(w.effLog))
 		w.mu.Unlock()
 	}
 
@@ -364,6 +436,18 @@ func c13Run(t *testing.T, sc *ccScenario, plan *c13Plan,
 	out.effLog = append([]string(nil), w.effLog...)
 	out.broadcast = w.forceClose > 0
 	out.notifyUnres = append([]int(nil), w.unresolvedAtNotify...)
+	out.inputs = env.inputs
+	out.inputErrs = env.checkInputs()
+	for _, e := range w.hookErrs {
+		out.inputErrs = append(out.inputErrs, e.Error())
+	}
+	if plan.realNursery {
+		out.nurseryLeft, _ = c13NurseryLeft(db)
+	}
+	out.nurseryConfs = env.nurseryConfs
+	out.nurseryTimeoutTx = env.nurseryTimeoutTx
+	out.nurseryKidSweeps = env.nurseryKidSweeps
+	out.publishedConfirmed = env.publishedConfirmed
 
 	return out
 }
@@ -400,6 +484,7 @@ func c13K1Class(sc *ccScenario, plan *c13Plan, msg string) bool {
 const (
 	c13KeyContractClosedRestart = "C13:restart-in-contract-closed-uses-chain-trigger"
 	c13KeyResolvedNotDeleted    = "C13:resolved-checkpoint-never-deleted-after-restart"
+	c13KeyTaprootPreimageLost   = "C13:taproot-restart-drops-success-preimage"
 )
 
 // c13PersistedState derives the arbitrator state on disk from the effect
@@ -474,12 +559,74 @@ func c13LocalDustFail(sc *ccScenario, msg string) bool {
 	return false
 }
 
+// c13SuccessResolverLive reports whether the run died at a moment at which a
+// success resolver (swapped in for an incoming contest resolver, i.e. with
+// its preimage applied) was in the log.
+func c13SuccessResolverLive(run *c13Outcome) bool {
+	for _, at := range run.crashAt {
+		live := 0
+		for i := 0; i < at && i < len(run.effLog); i++ {
+			e := run.effLog[i]
+			switch {
+			case strings.HasPrefix(e, "SwapContract(") &&
+				strings.HasSuffix(e, "htlcSuccessResolver)"):
+
+				live++
+
+			case e == "ResolveContract(*contractcourt."+
+				"htlcSuccessResolver)":
+
+				live--
+			}
+		}
+		if live > 0 {
+			return true
+		}
+	}
+
+	return false
+}
+
 func c13GenPlan(rt *rapid.T, sc *ccScenario) *c13Plan {
+	p := &c13Plan{claims: map[int]int32{}}
+
+	// An HTLC that has an output is worth at least one satoshi (the
+	// nursery ignores zero-value outputs).
+	for i := range sc.HTLCs {
+		if sc.HTLCs[i].Amt < 1000 {
+			sc.HTLCs[i].Amt += 1000
+		}
+	}
+
+	// Channel class. The scenario generator only knows the first three;
+	// a taproot channel is generated as an anchors / zero-fee-HTLC
+	// channel whose resolutions are re-dressed (c13Resolutions).
+	p.kind = rapid.SampledFrom([]int{
+		c13KindLegacy, c13KindLegacy, c13KindTweakless, c13KindTweakless,
+		c13KindAnchors, c13KindAnchors,
+		c13KindTaproot, c13KindTaproot, c13KindTaproot,
+		c13KindTaprootFinal, c13KindTaprootFinal, c13KindTaprootFinal,
+	}).Draw(rt, "c13Kind")
+	sc.ChanKind = p.kind
+	if p.kind >= c13KindTaproot {
+		sc.ChanKind = 2
+		p.tap = p.kind - c13KindTaproot + 1
+		p.blobs = rapid.IntRange(0, 2).Draw(rt, "blobs") == 0
+	}
+
+	if p.kind <= c13KindTweakless {
+		p.realNursery = rapid.IntRange(0, 3).Draw(rt, "nursery") != 0
+	}
+
 	confs := []int{ccR, ccR, ccL, ccL, ccBreach, ccCoop}
+	if p.kind <= c13KindTweakless {
+		// Only our own commitment takes a pre-anchor channel through
+		// the nursery.
+		confs = append(confs, ccL, ccL)
+	}
 	if sc.HasPending {
 		confs = append(confs, ccP, ccP)
 	}
-	p := &c13Plan{claims: map[int]int32{}}
 	p.conf = rapid.SampledFrom(confs).Draw(rt, "conf")
 	if p.conf == ccCoop {
 		// A cooperative close is only negotiated once no HTLC is left.
@@ -503,7 +650,9 @@ func c13GenPlan(rt *rapid.T, sc *ccScenario) *c13Plan {
 				int32(rapid.IntRange(0, 6).Draw(rt, "claimGap"))
 		}
 	}
-	p.horizon = int32(maxExp) + 4
+	// Room for the second stage of the last HTLC: second-level transaction
+	// at the expiry, CSV (4) on top of it.
+	p.horizon = int32(maxExp) + 12
 
 	return p
 }
@@ -541,6 +690,43 @@ func c13Compare(base, run *c13Outcome, sc *ccScenario, plan *c13Plan,
 			return nil
 		}
 	}
+
+	// Candidate finding: on a taproot channel a restart replaces the
+	// resolution of a restored success resolver with the one logged at
+	// close time (maybeAugmentTaprootResolvers), which has no preimage.
+	// Runs that die while a swapped-in success resolver is in the log are
+	// skipped only if the key is listed.
+	// Excused (only if the key is listed): the preimage of the inputs, the
+	// sweeps that can never confirm for want of it, and with them the
+	// outcome of the run. Witness types, sign descriptors, control blocks,
+	// blobs of everything handed to the sweeper are still compared.
+	if plan.tap > 0 && c13SuccessResolverLive(run) &&
+		ccKnown(c13KeyTaprootPreimageLost) {
+
+		st.Known(c13KeyTaprootPreimageLost)
+		st.Count("excluded_known", 1)
+		for _, e := range run.inputErrs {
+			if !strings.Contains(e, c13WrongPreimage) {
+				return fmt.Errorf("sweeper input: %s", e)
+			}
+		}
+		_, _, err := c13CompareInputs(base, run, false)
+
+		return err
+	}
+
+	// Inputs handed to the sweeper: model (a) and equality with the
+	// uninterrupted run (b).
+	if len(run.inputErrs) > 0 {
+		return fmt.Errorf("sweeper input: %s", run.inputErrs[0])
+	}
+	onlyRun, hintDiff, err := c13CompareInputs(base, run, true)
+	if err != nil {
+		return err
+	}
+	st.Count("sweeper_inputs_compared", int64(len(run.inputs)))
+	st.Count("sweeper_inputs_only_after_restart", int64(onlyRun))
+	st.Count("sweeper_input_height_hint_differs", int64(hintDiff))
 
 	if run.state != base.state && !relaxTerminal {
 		return fmt.Errorf("terminal state %v, uninterrupted %v",
@@ -652,9 +838,67 @@ func TestVerifC13Crash(t *testing.T) {
 					plan)
 			}
 		}
+		if len(base.inputErrs) > 0 {
+			rt.Fatalf("uninterrupted run: sweeper input: %s\n%v %v",
+				base.inputErrs[0], sc.sample(), plan)
+		}
+		if os.Getenv("VERIF_C13_DEBUG_STUCK") != "" && len(base.incubated) > 0 &&
+			base.state != StateFullyResolved {
+
+			rt.Fatalf("DEBUG stuck: %v\n%v\neffects=%v\nunresolved=%v left=%v",
+				sc.sample(), plan, base.effLog, base.unresolved,
+				base.nurseryLeft)
+		}
 		W := base.effects
 		labels := []string{"conf=" + ccConfNames[plan.conf],
-			"terminal=" + base.state.String()}
+			"terminal=" + base.state.String(),
+			"chan=" + c13KindNames[plan.kind]}
+		if plan.blobs {
+			labels = append(labels, "taproot_resolution_blobs")
+		}
+		if plan.tap > 0 && plan.conf <= ccP {
+			nRes := 0
+			for i := range sc.HTLCs {
+				if sc.HTLCs[i].hasOutput(plan.conf) {
+					nRes++
+				}
+			}
+			if nRes > 0 {
+				labels = append(labels, "taproot_htlc_resolvers")
+			}
+		}
+		if plan.kind <= c13KindTweakless && plan.conf == ccL {
+			if plan.realNursery {
+				labels = append(labels, "nursery=real")
+			} else {
+				labels = append(labels, "nursery=stub")
+			}
+		}
+		if base.nurseryConfs > 0 {
+			labels = append(labels, "nursery_got_confirmation")
+		}
+		if len(base.nurseryLeft) > 0 {
+			labels = append(labels, "nursery_store_not_emptied")
+		}
+		if len(base.incubated) > 0 {
+			labels = append(labels, "nursery_handoff")
+			if base.state == StateFullyResolved {
+				labels = append(labels, "nursery_completed")
+			}
+		}
+		if base.nurseryTimeoutTx > 0 {
+			labels = append(labels, "nursery_published_timeout_tx")
+		}
+		if base.nurseryKidSweeps > 0 {
+			labels = append(labels, "nursery_swept_second_level_output")
+		}
+		wts := map[string]bool{}
+		for _, r := range base.inputs {
+			wts[r.wt] = true
+		}
+		for wt := range wts {
+			labels = append(labels, "wt="+wt)
+		}
 		if base.broadcast {
 			labels = append(labels, "own_broadcast")
 		}
